@@ -131,7 +131,19 @@ def opMagnitude : Op → String
 structure Acc where
   env : Env
   cur : State
+  lk : String := ""     -- the keeper's point lookups (contract ~ NFT id ~ CSR found) as last observed
   out : Array String
+
+/-- every point lookup the keeper answered agrees with the raw index and names an existing CSR that lists the contract -/
+def lookupsMatch (s : State) (lk : String) : Bool :=
+  (listOf lk).all (fun e =>
+    match e.splitOn "~" with
+    | [c, n, h] =>
+      h == "1" && (s.idx.find? (fun p => p.1 == c)).map (·.2) == some (natOf n) &&
+      (match s.csrs.find? (fun p => p.1 == natOf n) with
+       | some p => p.2.contracts.contains c
+       | none => false)
+    | _ => false)
 
 def showCsrs (s : State) : String :=
   ",".intercalate (s.csrs.map (fun p => s!"{p.1}~{p.2.id}~{"+".intercalate p.2.contracts}~{p.2.txs}~{p.2.revenue}"))
@@ -144,7 +156,7 @@ def processLine (acc : Acc) (line : String) : Acc :=
   else if line.startsWith "S " then
     let kv := kvOf ((line.drop 2).toString.splitOn " ")
     let s := applyMod emptyState kv
-    { acc with cur := { s with bank := applyLedger emptyBank kv } }
+    { acc with cur := { s with bank := applyLedger emptyBank kv }, lk := kv.get "lk" }
   else if line.startsWith "O " then
     let (opToks, outToks, deltaToks) := splitOp line
     match opToks with
@@ -180,7 +192,9 @@ def processLine (acc : Acc) (line : String) : Acc :=
           (if !(modelPost.tsBal.eqv implPost.tsBal) then ["turnstile"] else []) ++
           (if modelPost.params != implPost.params || modelPost.turnstile != implPost.turnstile then ["params"] else [])
         let tr : Spec.Tr := { env := acc.env, pre := acc.cur, op := op, ok := implOk, post := implPost }
+        let lk' := if dkv.has "lk" then dkv.get "lk" else acc.lk
         let viol := Spec.monitors.filterMap (fun (pid, name, f) => if f tr then none else some s!"{seq} V {pid} {name}")
+        let viol := viol ++ (if lookupsMatch implPost lk' then [] else [s!"{seq} V C16 lookups_match_registry"])
         let modelRej := modelRej.replace " " "_"
         let br := if implOk || modelOk then branchOf acc.env acc.cur op
                   else (match op with
@@ -206,7 +220,7 @@ def processLine (acc : Acc) (line : String) : Acc :=
                (if comps.contains "bank" then bankDiff modelPost.bank implPost.bank ++ " " else "") ++
                (if comps.contains "registry" then s!"modelCsrs=[{showCsrs modelPost}] implCsrs=[{showCsrs implPost}] modelIdx=[{showIdx modelPost}] implIdx=[{showIdx implPost}] " else "") ++
                (if comps.contains "turnstile" then s!"modelTsb=[{showTsb modelPost}] implTsb=[{showTsb implPost}] " else "")
-        { acc with cur := implFull, out := (acc.out.push l) ++ viol.toArray ++ cov }
+        { acc with cur := implFull, lk := lk', out := (acc.out.push l) ++ viol.toArray ++ cov }
     | _ => { acc with out := acc.out.push "? E malformed" }
   else acc
 
